@@ -16,7 +16,10 @@ package main
 // What the reading normalises away: names of local variables (numbered by first definition), the
 // name of the receiver and of the node parameter, comments, layout.  Two pure local definitions
 // are substituted where they are used instead of being emitted: `x := kind(node.F)` and
-// `t := node.Type()`.  `var x int` only introduces the variable.  Everything else that is not one
+// `t := node.Type()`.  `var x int` only introduces the variable.  The init statement of an if,
+// `x, ok := node.F.(*ast.T)`, binds x and ok for the condition and both branches: `ok` reads as
+// CIsNode (slot F) T, `x.G` as XAsField (slot F) T G, `node.F.String()` as XReSource F, and `==` / `!=`
+// between two such strings as CStrEq (MatchesNode's guard).  Everything else that is not one
 // of the shapes below becomes `SUnrecognised "compiler.go:<line>"`, which makes the bridge lemma
 // of coq/Bridge/BrSchemes.v fail.
 
@@ -30,9 +33,12 @@ import (
 )
 
 type scBinding struct {
-	kind string // "var" (numbered), "kind" (x := kind(node.F)), "type" (t := node.Type())
+	kind string // "var" (numbered), "kind" (x := kind(node.F)), "type" (t := node.Type()),
+	// "assert" / "assertok" (x, ok := node.F.(*ast.T) in the init of an if statement)
 	num  int
 	kexp string
+	slot string // assert, assertok: the Node-typed place that is asserted
+	ty   string // assert, assertok: T
 }
 
 type scFn struct {
@@ -296,10 +302,73 @@ func scIsNil(e ast.Expr) bool {
 	return ok && id == "nil"
 }
 
+// x, ok := node.F.(*ast.T): binds x and ok (pure; substituted where they are used)
+func (t *scFn) assertInit(s ast.Stmt) bool {
+	as, ok := s.(*ast.AssignStmt)
+	if !ok || as.Tok != token.DEFINE || len(as.Lhs) != 2 || len(as.Rhs) != 1 {
+		return false
+	}
+	val, ok1 := scIdent(as.Lhs[0])
+	okv, ok2 := scIdent(as.Lhs[1])
+	if !ok1 || !ok2 {
+		return false
+	}
+	ta, ok := as.Rhs[0].(*ast.TypeAssertExpr)
+	if !ok || ta.Type == nil {
+		return false
+	}
+	sl, ok := t.slot(ta.X)
+	if !ok {
+		return false
+	}
+	star, ok := ta.Type.(*ast.StarExpr)
+	if !ok {
+		return false
+	}
+	pkg, ty, ok := scSel(star.X)
+	if !ok || pkg != "ast" {
+		return false
+	}
+	if val != "_" {
+		t.bind(val, scBinding{kind: "assert", slot: sl, ty: ty})
+	}
+	if okv != "_" {
+		t.bind(okv, scBinding{kind: "assertok", slot: sl, ty: ty})
+	}
+	return true
+}
+
+// string-valued expression of a guard
+func (t *scFn) sexp(e ast.Expr) (string, bool) {
+	switch x := e.(type) {
+	case *ast.ParenExpr:
+		return t.sexp(x.X)
+	case *ast.CallExpr:
+		// node.F.String()
+		if sel, ok := x.Fun.(*ast.SelectorExpr); ok && sel.Sel.Name == "String" && len(x.Args) == 0 {
+			if f, ok := t.nodeField(sel.X); ok {
+				return "XReSource " + coqString(f), true
+			}
+		}
+	case *ast.SelectorExpr:
+		// x.F with x bound by a type assertion
+		if v, f, ok := scSel(x); ok {
+			if b, ok := t.find(v); ok && b.kind == "assert" {
+				return "XAsField (" + b.slot + ") " + coqString(b.ty) + " " + coqString(f), true
+			}
+		}
+	}
+	return "", false
+}
+
 func (t *scFn) cond(e ast.Expr) (string, bool) {
 	switch x := e.(type) {
 	case *ast.ParenExpr:
 		return t.cond(x.X)
+	case *ast.Ident:
+		if b, ok := t.find(x.Name); ok && b.kind == "assertok" {
+			return "CIsNode (" + b.slot + ") " + coqString(b.ty), true
+		}
 	case *ast.UnaryExpr:
 		if x.Op == token.NOT {
 			c, ok := t.cond(x.X)
@@ -336,6 +405,12 @@ func (t *scFn) cond(e ast.Expr) (string, bool) {
 				}
 				if id, ok := scIdent(x.X); ok && t.isTypeVar(id) {
 					return wrap("CTypeNil"), true
+				}
+				return "", false
+			}
+			if a, ok := t.sexp(x.X); ok {
+				if b, ok := t.sexp(x.Y); ok {
+					return wrap("CStrEq (" + a + ") (" + b + ")"), true
 				}
 				return "", false
 			}
@@ -574,7 +649,10 @@ func (t *scFn) assign(s *ast.AssignStmt, ind string) (string, bool, bool) {
 }
 
 func (t *scFn) ifStmt(s *ast.IfStmt, ind string) string {
-	if s.Init != nil {
+	// the names an init statement binds are visible in the condition and in both branches
+	t.push()
+	defer t.pop()
+	if s.Init != nil && !t.assertInit(s.Init) {
 		return scUnrec(s)
 	}
 	c, ok := t.cond(s.Cond)
